@@ -739,6 +739,12 @@ func (f *Func) UnionOk(sites []Site, mode OkMode) (flow.EdgeSet, map[*flow.Verte
 		es, d := f.OkEdges(s, mode)
 		for e := range es {
 			all[e] = true
+			// an ok edge leaving a return vertex means the return hands
+			// the call's own error to the caller (return f(...) or
+			// `x, err := f(); return x, err`): the return is the tail
+			if e.From.Kind == flow.KReturn {
+				direct[e.From] = true
+			}
 		}
 		if d {
 			direct[s.V] = true
